@@ -372,6 +372,7 @@ impl Evaluator {
         if operands.is_empty() {
             panic!("[Invalid argument] operands vector must be non-empty.");
         }
+        self.check_ciphertext(&operands[0]);
         *destination = operands[0].clone();
         for i in 1..operands.len() {
             self.add_inplace(destination, &operands[i]);
@@ -1622,6 +1623,7 @@ impl Evaluator {
 
     /// See [Evaluator::mod_switch_to].
     pub fn mod_switch_to_inplace(&self, encrypted: &mut Ciphertext, parms_id: &ParmsID) {
+        self.check_ciphertext(encrypted);
         let context_data = self.get_context_data(encrypted.parms_id());
         let target_context_data = self.get_context_data(parms_id);
         if context_data.chain_index() < target_context_data.chain_index() {
@@ -1649,6 +1651,7 @@ impl Evaluator {
 
     /// See [Evaluator::mod_switch_plain_to].
     pub fn mod_switch_plain_to_inplace(&self, plain: &mut Plaintext, parms_id: &ParmsID) {
+        self.check_plaintext(plain);
         if !plain.is_ntt_form() {
             panic!("[Invalid argument] Plaintexts must be in NTT form");
         }
@@ -1781,6 +1784,7 @@ impl Evaluator {
             panic!("[Invalid argument] Can only do multiply_many for BGV/BFV scheme");
         }
         if operands.len() == 1 {
+            self.check_ciphertext(&operands[0]);
             *destination = operands[0].clone();
             return;
         }
